@@ -217,7 +217,9 @@ def build_scope(case):
         k = counter[0]
         name = 'n' if rebind else 'q%d' % k
         marker = 'L%d' % k
+        before = set(ns)
         inner = probe('in%d' % k) + level(i + 1, nest) + probe('out%d' % k)
+        deeper = {a: ns[a] for a in ns if a not in before}
         if kind in ('in', 'inb'):
             ns['seq%d' % k] = ['seq', 'list', [['obj', {name: ['lit',
                                                               marker]}]]]
@@ -230,7 +232,11 @@ def build_scope(case):
             ns['map%d' % k] = ['map', {name: ['lit', marker]}]
             node = ['with', N('map%d' % k), inner, ['mapping']]
         elif kind == 'withonly':
-            ns['obj%d' % k] = ['obj', {name: ['lit', marker]}]
+            # "only" hides the whole outer namespace: what deeper levels
+            # need must come from the object itself
+            attrs = {name: ['lit', marker]}
+            attrs.update(deeper)
+            ns['obj%d' % k] = ['obj', attrs]
             node = ['with', N('obj%d' % k), inner, ['only']]
         elif kind == 'let':
             node = ['let', [[name, E("'%s'" % marker)]], inner]
@@ -316,8 +322,9 @@ def run(case):
 def finalize(tier, agg):
     if agg['outcomes'].get('unspec', 0) > agg['cases'] // 20:
         raise HarnessFault('too many unspecified observations')
-    if len(agg['outcomes']) < 3:
-        raise HarnessFault('vacuous: too few outcomes')
+    if agg['outcomes'].get('scope:ok', 0) < 1000 or \
+            agg['outcomes'].get('src:ok', 0) < 1000:
+        raise HarnessFault('vacuous: too few rendered programs')
     # model self-test: kw beats client beats ctor mapping
     nodes, parts = build_src({'kind': 'plain', 'shape': 'single',
                               'sources': ['kw', 'client', 'cmap'],
